@@ -629,6 +629,23 @@ class Segment:
                     return
                 at = idx[int(op.get("frac", 0.5) * len(idx)) % len(idx)]
                 data[at] |= 0x80
+        elif kind == "retype":
+            # damage that keeps the container intact: one keyword value of the document (the
+            # "type" of a JSON relation / constraint node, an XML attribute value) becomes
+            # another word, as after a careless hand edit or a tool of another version
+            import re as _re
+            if op.get("fmt") in ("json", "glencoe"):
+                spots = list(_re.finditer(rb'"type"\s*:\s*"([A-Za-z_]*)"', bytes(data)))
+            elif op.get("fmt") in ("fide", "xml"):
+                spots = list(_re.finditer(rb'\b(?:mandatory|abstract|type|min|max|hidden)="([^"]*)"',
+                                          bytes(data)))
+            else:
+                spots = []
+            if not spots:
+                rec["outcome"] = "skipped"
+                return
+            hit = spots[int(op.get("frac", 0.5) * len(spots)) % len(spots)]
+            data[hit.start(1):hit.end(1)] = op.get("word", "FEATURE").encode("utf-8")
         with simdisk.REAL_OPEN(self.abspath(rel), "wb") as fh:
             fh.write(bytes(data))
         self.stamp(rel)
